@@ -290,6 +290,16 @@ impl Engine {
                 self.shadow[w].materialise_pub();
                 let world = self.worlds[w].as_mut().unwrap();
                 let built = self.built[ks].as_ref().unwrap();
+                // the bundle answers has::<T>() for exactly the types it lists (and then spawns)
+                let listed: Vec<TypeId> = DynamicBundle::with_ids(&built, |ids| ids.to_vec());
+                for t in 0..NTYPES as u64 {
+                    with_comp!(t, C, {
+                        let has = DynamicBundle::has::<C>(&built);
+                        if has != listed.contains(&TypeId::of::<C>()) {
+                            out.flag(format!("C13: a built clone-bundle says has::<{t}>() = {has} but its type list says otherwise"));
+                        }
+                    });
+                }
                 match catch_unwind(AssertUnwindSafe(|| world.spawn(built))) {
                     Ok(h) => {
                         // the spawned entity holds the clones just made, in order
